@@ -1,0 +1,23 @@
+package checker
+
+import (
+	"github.com/jsightapi/jsight-schema-go-library/errors"
+	"github.com/jsightapi/jsight-schema-go-library/internal/lexeme"
+)
+
+// nullChecker admits the example null: the node (or the type) is nullable.
+type nullChecker struct{}
+
+func (nullChecker) Check(nodeLex lexeme.LexEvent) errors.Error {
+	if nodeLex.Type() == lexeme.LiteralEnd && nodeLex.Value().String() == "null" {
+		return nil
+	}
+	return lexeme.NewLexEventError(nodeLex, errors.ErrChecker)
+}
+
+// anyChecker admits every example: the type is "any".
+type anyChecker struct{}
+
+func (anyChecker) Check(lexeme.LexEvent) errors.Error {
+	return nil
+}
